@@ -161,14 +161,9 @@ func runFieldList() {
 		if tier == "quick" && len(raws) > 4000 {
 			step = len(raws) / 4000
 		}
-		for i := 0; i < len(raws); i += step {
-			raw := raws[i]
-			width := []int{2, 4, 8}[rng.next()%3]
-			if raw>>32 != 0 {
-				width = 8
-			} else if raw>>16 != 0 && width < 4 {
-				width = 4
-			}
+		// one answer of the natural width per value, and one of every width 1..8 holding the value's low
+		// bytes (the device decides how many bytes it sends; the raw value is what those bytes encode)
+		apiCase := func(raw uint64, width int) {
 			val := make([]byte, width)
 			for j := 0; j < width; j++ {
 				val[j] = byte(raw >> (8 * uint(j)))
@@ -179,8 +174,8 @@ func runFieldList() {
 				FieldList: func(v vedirectapi.FieldListValue) { got = &v },
 			})
 			if err != nil || got == nil {
-				fmt.Fprintf(out, "%s api %d ERR - 1\n", t.fl.Name, raw)
-				continue
+				fmt.Fprintf(out, "%s api %d ERR - 1 w%d\n", t.fl.Name, raw, width)
+				return
 			}
 			first := got.CommaString()
 			stable := 1
@@ -196,7 +191,33 @@ func runFieldList() {
 			if r == "" {
 				r = "-"
 			}
-			fmt.Fprintf(out, "%s api %d %s %s %d\n", t.fl.Name, raw, fieldsString(got.Value()), r, stable)
+			fmt.Fprintf(out, "%s api %d %s %s %d w%d\n", t.fl.Name, raw, fieldsString(got.Value()), r, stable, width)
+		}
+		for i := 0; i < len(raws); i += step {
+			raw := raws[i]
+			width := []int{2, 4, 8}[rng.next()%3]
+			if raw>>32 != 0 {
+				width = 8
+			} else if raw>>16 != 0 && width < 4 {
+				width = 4
+			}
+			apiCase(raw, width)
+			w := 1 + int(rng.next()%8)
+			if w < 8 {
+				apiCase(raw&(uint64(1)<<(8*uint(w))-1), w)
+			} else {
+				apiCase(raw, w)
+			}
+		}
+		// every one-byte answer and the boundary patterns of every width
+		for w := 1; w <= 8; w++ {
+			top := uint64(1) << (8*uint(w) - 1)
+			for _, raw := range []uint64{top, top - 1, top | 1, top | (top - 1), top >> 1, 0} {
+				apiCase(raw, w)
+			}
+		}
+		for v := uint64(0); v < 256; v++ {
+			apiCase(v, 1)
 		}
 	}
 }
